@@ -78,6 +78,10 @@ def work_basis(task, p):
         return
     K = 4 ** n
     counts = [tomo.basis_counts(c, n) for c in circs]
+    if user_md or n <= 3:
+        # every circuit with its own number of shots (legal: each circuit is normalised by its own total)
+        counts = [{k: v * ((3 * i) % 7 + 1) for k, v in cd.items()} for i, cd in enumerate(counts)]
+        p.counters["basis pass with a different number of shots per circuit"] += 1
     ok, ev = call(lambda: FullStateTomographyFitter(tomo.FakeResult(counts), circs).expectation_values())
     p.evals += K
     p.distinct_count += K - 1
@@ -117,7 +121,7 @@ def work_basis(task, p):
         w[0] += 1.0
         w /= w.sum()
         shots = [1.0, 1000.0, 1e-3][probe]
-        sc = [{k: float(np.dot(v.astype(float), w)) * shots for k, v in cd.items()} for cd in counts]
+        sc = [{k: float(np.dot(v.astype(float), w)) * shots * (1 + (ci % 5) * (probe % 2)) for k, v in cd.items()} for ci, cd in enumerate(counts)]
         ok, ev2 = call(lambda: FullStateTomographyFitter(tomo.FakeResult(sc), circs).expectation_values())
         p.evals += 1
         if not ok:
@@ -165,7 +169,7 @@ def work_dense(task, p):
         if not ok:
             p.violate(key + "circuits-raise", "full_state_tomography_circuits raised %s: %s" % (exc_name(circs), str(circs)[:160]), case)
             continue
-        counts = [tomo.dense_counts(c, init, n, shots=(None, 4096)[i % 2]) for c in circs]
+        counts = [tomo.dense_counts(c, init, n, shots=(None, 4096, 1000 + 37 * ci)[i % 3]) for ci, c in enumerate(circs)]
         f = FullStateTomographyFitter(tomo.FakeResult(counts), circs)
         ok, dm = call(f.density_matrix)
         if not ok:
